@@ -2,7 +2,7 @@ CONSTANTS
   RawConfigs <- MCRawConfigs
   InheritsSeesDefault = TRUE
   MaxLen = 2
-  TextVariants = {1, 2, 5}
+  TextVariants = {1, 2, 5, 6, 8}
 SPECIFICATION MCSpec
 INVARIANTS Conforms EmitCases
 PROPERTY Termination
